@@ -49,6 +49,14 @@ def gen_case(rng, ltype, k):
     pl = []
     for _ in range(rng.choice([1, 2, 3, 4])):
         pl.append([rng.choice(NAMES), rng.uniform(0.5, 2.5), rng.uniform(0.05, 0.6)])
+    if k % 4 == 1:
+        # realised values that are exactly zero (isotropic orbits, gamma_ppn = 0) are values like any other
+        h["kwargs_lens"]["gamma_ppn"] = 0.0
+        pl.append(["gamma_ppn", rng.uniform(0.5, 1.5), rng.uniform(0.1, 0.5)])
+        if "kin_scaling_param_list" not in cfg:
+            cfg["anisotropy_sampling"] = False
+            h["kwargs_kin"] = dict(h["kwargs_kin"], a_ani=0.0, beta_inf=0.0)
+            pl += [["a_ani", rng.uniform(0.5, 2.0), rng.uniform(0.1, 0.5)], ["beta_inf", rng.uniform(0.3, 1.0), rng.uniform(0.1, 0.5)]]
     return dict(ltype=ltype, cfg=cfg, hyper=h, data=data, ddt=rng.uniform(3500, 6500), dd=rng.uniform(800, 1400),
                 dlum=rng.uniform(-2, 2) if ltype in lc.MAG_TYPES else 0.0, beta=rng.uniform(0.5, 0.9) if ltype == "DSPL" else None,
                 prior_list=pl, stream="main")
